@@ -320,6 +320,7 @@ def run(rep, tier, seed, only=None):
                   "seeded": "<=5 inputs, <=10 gates"}
     rep.outside = ["Kleene-optimality (completeness) is not claimed by the property: gt_(Undefined, True) is Undefined, allowed",
                    "assignments that put values on internal gates"]
+    rep.bounds['copied Undefined'] = 'all operators (arity <= 4) and 5 feature circuits with Undefined objects that went through deepcopy / pickle (concrete differential)'
     rep.rule = "cases = operator lemmas + circuits (systematic topologies with symbolic types, feature, seeded); 3^n partial assignments and all refinements quantified by z3"
     rep.explanation = ("z3 decides for all 3^n partial assignments A and all refinements A' (hence all completions) that defined results are preserved, "
                        "and that total assignments give defined values; gate types symbolic on systematic family.")
